@@ -25,6 +25,18 @@ def run(ctx):
             for x in f:
                 r["failures"].append({"case": {"h2": d}, "what": f"{x['backend']}: {x.get('delivered')} of {x.get('expected')} bytes, END_STREAM x{x.get('ends')}, "
                                                                  f"closed at {x.get('closed_at')}", "signature": "c02h2:" + x["signature"]})
+        # a client that lowers its initial window mid-response (the stream window goes negative): the body still arrives
+        # complete, in order, ended once
+        from . import c08
+
+        for i in range(c.scale(10, 100, 30)):
+            d, f = c08.h2_negative_window(c.seed * 4001 + i)
+            r["count"] += 1
+            r["dist"]["h2_negative_window"] = r["dist"].get("h2_negative_window", 0) + 1
+            for x in f:
+                if x["signature"] in ("h2-not-delivered-after-negative-window", "h2-data-sent-at-negative-window"):
+                    r["failures"].append({"case": {"h2": d}, "what": f"{x.get('got')} of {x.get('expected')} bytes, END_STREAM x{x.get('ends')}, reset {x.get('reset')}",
+                                          "signature": "c02h2:" + x["signature"]})
         return r
 
     return K.run_common(ctx, PROP, ["c02"], (250, 3000, 1000), (300, 3000, 1000), (300, 4000, 1500), kw,
